@@ -47,10 +47,13 @@ def wellformed(rng):
         else: hs.append((rng.choice(CUS), hval()))
     if body or rng.random() < 0.2:
         cl = str(len(body))
-        if rng.random() < 0.1: cl = '0' * rng.choice([1, 3]) + cl
+        if rng.random() < 0.1: cl = '0' * rng.choice([1, 3, 8, 12, 25]) + cl          # 1*DIGIT: any number of leading zeros
         hs.insert(rng.randrange(len(hs) + 1), (recase(rng, 'Content-Length'), cl))
     head = f'{rng.choice(METHODS)} {path}{q} HTTP/1.1\r\n' + ''.join(f'{k}: {v}\r\n' for k, v in hs) + '\r\n'
-    return head.encode('utf-8') + body
+    raw = head.encode('utf-8') + body
+    if rng.random() < 0.15:          # bytes after the body in the same read (a stray CRLF, a pipelined request, noise): the payload is the first Content-Length bytes, no more
+        raw += rng.choice([b'\r\n', b'GET /next HTTP/1.1\r\n\r\n', b'\x00', bytes(rng.randrange(256) for _ in range(rng.choice([1, 7, 300])))])
+    return raw
 
 
 def malformed(rng):
